@@ -13,6 +13,7 @@
 //!   sr|ss kalg ktag kowner inc exp n {owner type class ttl crdata}*n
 //!   kt flags proto alg pk        ds dalg owner flags proto alg pk
 //!   lc owner                     wce labels owner
+//!   rsa min_len pk   renc e n   ksz alg pk      (public key field parsing)
 //! names are uncompressed wire format in hex, crdata is the canonical RDATA.
 use bytes::Bytes;
 use domain::base::iana::{DigestAlgorithm, Rtype, SecurityAlgorithm};
@@ -421,18 +422,27 @@ fn shuffle<T>(r: &mut Rng, v: &mut Vec<T>) { for i in (1..v.len()).rev() { let j
 /// resolver transformation, reject after every alteration
 fn run_rrset(out: &mut Out, r: &mut Rng, cx: &mut Ctx, idx: u64) {
     // ---- generate
-    let apex = gen_name(r, 3, 80);
+    let mut apex = gen_name(r, 3, 80);
     let mut owner = gen_name(r, 3, 60);
     if r.chance(3, 10) { owner.insert(0, b"*".to_vec()); }
     owner.extend(apex.iter().cloned());
+    // boundary shape: the deepest names there are (127 one-octet labels = 255 octets)
+    if idx % 23 == 5 {
+        let k = *r.pick(&[125usize, 126, 127]);
+        owner = (0..k).map(|_| vec![*r.pick(b"abcXYZ09")]).collect();
+        if r.chance(1, 2) { owner[0] = b"*".to_vec(); }
+        apex = owner[k - r.range(0, 3) as usize..].to_vec();
+    }
     // a leading "*" label makes the owner a wildcard wherever it came from
     let wildcard = owner.first().map(|l| l.as_slice() == b"*").unwrap_or(false);
-    let t = *r.pick(TYPES);
+    let big_rdata = idx % 61 == 7;
+    let t = if big_rdata { 65280 } else { *r.pick(TYPES) };
     let class = if r.chance(1, 8) { *r.pick(&[3u16, 4, 254, 1000]) } else { 1 };
-    let ttl = match r.below(5) { 0 => 0, 1 => 0x7FFF_FFFF, 2 => r.u32() >> 1, _ => r.range(1, 86400) as u32 };
+    let ttl = match r.below(6) { 0 => 0, 1 => 0x7FFF_FFFF, 2 => r.u32() >> 1, 3 => *r.pick(&[0xFFFF_FFFFu32, 0x8000_0000, 1]), _ => r.range(1, 86400) as u32 };
     let mut datas: Vec<RData> = vec![];
     let want = if t == 6 || t == 5 || t == 39 { 1 } else { r.range(1, 5) };
-    let base = gen_rdata(r, t, &apex);
+    let base = if big_rdata { let n = *r.pick(&[65535usize, 65534, 256, 255]); vec![Part::Raw(r.bytes(n))] } else { gen_rdata(r, t, &apex) };
+    let want = if big_rdata { 2 } else { want };
     for i in 0..want {
         let d = if i == 0 { base.clone() } else if r.chance(1, 2) {
             // close relative: change or extend the last raw part so that RDATA share long prefixes
@@ -440,7 +450,7 @@ fn run_rrset(out: &mut Out, r: &mut Rng, cx: &mut Ctx, idx: u64) {
             let simple = matches!(t, 1 | 28 | 61 | 65280 | 99 | 52 | 44);
             if let (true, Some(Part::Raw(b))) = (simple, d.last_mut()) {
                 let k = b.len();
-                if k > 0 { if t == 1 || t == 28 || r.chance(1, 2) { b[k - 1] = r.u8(); } else { b.push(r.u8()); } }
+                if k > 0 { if t == 1 || t == 28 || k >= 65535 || r.chance(1, 2) { b[k - 1] = r.u8(); } else { b.push(r.u8()); } }
                 d
             } else { gen_rdata(r, t, &apex) }
         } else { gen_rdata(r, t, &apex) };
@@ -689,67 +699,115 @@ fn run_signer_cases(out: &mut Out, r: &mut Rng) {
     out.case(&case, &obs, obs.starts_with("Ok"), if sorted_api { "sign_sorted" } else { "sign_rrset_fake" });
 }
 
-/// a small zone through SortedRecords and sign_sorted_zone_records: every RRSIG
-/// that comes back must verify over the RRset it names and be made over the
-/// RFC octets
+/// a small zone through SortedRecords and sign_sorted_zone_records: which RRsets
+/// get an RRSIG (T2 kind zs; RFC 4035 2.2 computed here from the zone content),
+/// and every RRSIG that comes back must verify over the RRset it names and be
+/// made over the RFC octets
 fn run_zone(out: &mut Out, r: &mut Rng, cx: &mut Ctx, idx: u64) {
     let mut apex = gen_name(r, 2, 40);
     if apex.is_empty() { apex.push(b"zone".to_vec()); }
     let ttl = r.range(1, 86400) as u32;
     let mut specs: Vec<Rec> = vec![];
-    let mut add = |r: &mut Rng, specs: &mut Vec<Rec>, owner: &Nm, t: u16, n: u64, ttl: u32| {
+    let under = |l: &[&[u8]], base: &Nm| -> Nm { let mut n: Nm = l.iter().map(|x| x.to_vec()).collect(); n.extend(base.iter().cloned()); n };
+    let rrsig_rd = |r: &mut Rng, apex: &Nm| -> RData {
+        let mut v = u16b(1); v.push(15); v.push(2); v.extend(r.bytes(12)); v.extend(u16b(r.u16()));
+        vec![Part::Raw(v), Part::Name { n: apex.clone(), lower: true, compress: false }, Part::Raw(r.bytes(16))]
+    };
+    let add = |r: &mut Rng, specs: &mut Vec<Rec>, owner: &Nm, t: u16, n: u64, ttl: u32| {
+        if wire_len(owner) > 220 { return; }
+        if specs.iter().any(|x| lower(&x.owner) == lower(owner) && (x.rtype == t || (x.rtype == 5) != (t == 5) && (t == 5 || x.rtype == 5))) { return; }
+        let ttl = specs.iter().find(|x| lower(&x.owner) == lower(owner) && x.rtype == t).map(|x| x.ttl).unwrap_or(ttl);
         let mut ds: Vec<RData> = vec![];
-        for _ in 0..n { let d = gen_rdata(r, t, &apex); if !ds.iter().any(|x| raw_canonical(x) == raw_canonical(&d)) { ds.push(d); } }
+        for _ in 0..n { let d = if t == 46 { rrsig_rd(r, &apex) } else { gen_rdata(r, t, &apex) }; if !ds.iter().any(|x| raw_canonical(x) == raw_canonical(&d)) { ds.push(d); } }
         for d in ds { let o = if r.chance(1, 3) { flip_case(r, owner) } else { owner.clone() }; specs.push(Rec { owner: o, class: 1, ttl, rtype: t, data: d }); }
     };
     add(r, &mut specs, &apex, 6, 1, ttl); add(r, &mut specs, &apex, 2, 2, ttl); add(r, &mut specs, &apex, 48, 2, ttl);
+    if r.chance(1, 2) { add(r, &mut specs, &apex, 59, 1, ttl); } if r.chance(1, 2) { add(r, &mut specs, &apex, 60, 1, ttl); }
+    if r.chance(1, 3) { add(r, &mut specs, &apex, 46, 1, ttl); } if r.chance(1, 2) { add(r, &mut specs, &apex, 47, 1, ttl); }
     for _ in 0..r.range(2, 6) {
         let mut o = gen_name(r, 2, 40);
         if o.is_empty() { o.push(b"h".to_vec()); }
         if r.chance(1, 4) { o.insert(0, b"*".to_vec()); }
         o.extend(apex.iter().cloned());
-        if wire_len(&o) > 200 { continue; }
-        for _ in 0..r.range(1, 3) { let t = *r.pick(&[1u16, 28, 16, 15, 33, 52, 65, 257, 13, 99, 5, 35]); let t_ttl = r.range(1, 86400) as u32;
-            if specs.iter().any(|x| lower(&x.owner) == lower(&o) && (x.rtype == t || x.rtype == 5 || t == 5)) { continue; }
+        for _ in 0..r.range(1, 3) { let t = *r.pick(&[1u16, 28, 16, 15, 33, 52, 65, 257, 13, 99, 5, 35, 46, 47, 48, 59, 43]); let t_ttl = r.range(1, 86400) as u32;
             let cnt = if t == 5 { 1 } else { r.range(1, 3) };
             add(r, &mut specs, &o, t, cnt, t_ttl); }
     }
-    // a delegation with DS and glue
-    let mut cut = vec![b"sub".to_vec()]; cut.extend(apex.iter().cloned());
-    if !specs.iter().any(|x| lower(&x.owner) == lower(&cut)) {
-        add(r, &mut specs, &cut, 2, 2, ttl); add(r, &mut specs, &cut, 43, 1, ttl);
-        let mut glue = vec![b"ns".to_vec()]; glue.extend(cut.iter().cloned()); add(r, &mut specs, &glue, 1, 1, ttl);
+    // delegations: NS (+ DS, NSEC, other data) at the cut, glue, occluded names and a nested delegation below it
+    for cutl in [&b"sub"[..], &b"Tcut"[..]] {
+        if cutl == b"Tcut" && r.chance(1, 2) { continue; }
+        let cut = under(&[cutl], &apex);
+        add(r, &mut specs, &cut, 2, 2, ttl);
+        if r.chance(3, 4) { add(r, &mut specs, &cut, 43, 1, ttl); } if r.chance(1, 2) { add(r, &mut specs, &cut, 47, 1, ttl); }
+        if r.chance(1, 3) { add(r, &mut specs, &cut, 1, 1, ttl); } if r.chance(1, 4) { add(r, &mut specs, &cut, 46, 1, ttl); }
+        add(r, &mut specs, &under(&[b"ns"], &cut), 1, 1, ttl);
+        if r.chance(1, 2) { add(r, &mut specs, &under(&[b"deep", b"x"], &cut), 16, 1, ttl); }
+        if r.chance(1, 2) { let n2 = under(&[b"sub2"], &cut); add(r, &mut specs, &n2, 2, 1, ttl); add(r, &mut specs, &n2, 43, 1, ttl); add(r, &mut specs, &under(&[b"a"], &n2), 1, 1, ttl); }
     }
+    // names that sort right after a delegation, and a name that merely shares a label prefix with it
+    add(r, &mut specs, &under(&[b"sub0"], &apex), 1, 1, ttl); add(r, &mut specs, &under(&[b"t"], &apex), 28, 1, ttl); add(r, &mut specs, &under(&[b"zz"], &apex), 16, 1, ttl);
+    // records outside the zone, sorting before and after it
+    if r.chance(2, 3) { let o = vec![b"0out".to_vec()]; if !lower(&o).ends_with(&lower(&apex)[..]) { add(r, &mut specs, &o, 1, 1, ttl); } }
+    if r.chance(2, 3) { let mut o = vec![b"w".to_vec()]; let mut sib = lower(&apex); let k = sib.len() - 1; sib[k].push(b'z'); o.extend(sib); add(r, &mut specs, &o, 1, 1, ttl); }
     shuffle(r, &mut specs);
     let mut zone: Vec<ZRec> = vec![];
     for chunk in specs.chunks(20) { match parse_zone(&message(chunk, false)) { Ok(z) => zone.extend(z), Err(_) => { cx.rejected_gen += 1; return; } } }
-    let ki = (idx as usize) % cx.keys.len();
-    if cx.keys[ki].inner.is_none() { return; }
-    let key = SigningKey::new(to_name(&apex), 256, RecKeyRef(&cx.keys[ki]));
-    let dnskey = cx.keys[ki].dnskey.clone();
+    let real: Vec<usize> = (0..cx.keys.len()).filter(|i| cx.keys[*i].inner.is_some()).collect();
+    let k1 = real[(idx as usize) % real.len()];
+    let k2 = real[(idx as usize / 3 + 1) % real.len()];
+    let two = r.chance(1, 3) && k1 != k2 && cx.keys[k1].dnskey.key_tag() != cx.keys[k2].dnskey.key_tag();
+    let key1 = SigningKey::new(to_name(&apex), 256, RecKeyRef(&cx.keys[k1]));
+    let key2 = SigningKey::new(to_name(&apex), 257, RecKeyRef(&cx.keys[k2]));
+    let keys: Vec<&SigningKey<Bytes, RecKeyRef>> = if two { vec![&key1, &key2] } else { vec![&key1] };
     let (inc, exp) = { let a = r.u32(); (a, a.wrapping_add(r.range(1, 1 << 24) as u32)) };
-    let case = format!("zone seed-index {} apex {} records {} key {}", idx, hex(&wire(&apex)), zone.len(), cx.keys[ki].alg.to_int());
-    out.begin(&case);
-    let zone2 = zone.clone();
     let apex_name = to_name(&apex);
+    let sorted: SortedRecords<Name<Bytes>, ZoneRecordData<Bytes, Name<Bytes>>> = SortedRecords::from(zone.clone());
+    let mut case = format!("zs {} {} {}", hex(&wire(&apex)), keys.len(), sorted.len());
+    for z in sorted.iter() { case.push_str(&format!(" {} {}", hex(&wire(&labels_of(z.owner()))), z.rtype().to_int())); }
+    out.begin(&case);
     let res = catch_mut(|| {
-        let sorted: SortedRecords<Name<Bytes>, ZoneRecordData<Bytes, Name<Bytes>>> = SortedRecords::from(zone2);
-        sign_sorted_zone_records(&apex_name, sorted.owner_rrs(), &[&key], &GenerateRrsigConfig::new(Timestamp::from(inc), Timestamp::from(exp))).map_err(|e| format!("{}", e))
+        sign_sorted_zone_records(&apex_name, sorted.owner_rrs(), &keys, &GenerateRrsigConfig::new(Timestamp::from(inc), Timestamp::from(exp))).map_err(|e| format!("{}", e))
     });
     let rrsigs = match res {
-        Err(p) => { out.check(false, "panic_sign", &case, &p); return; }
-        Ok(Err(e)) => { out.check(false, "honest_sign_fails", &case, &e); return; }
+        Err(p) => { out.case(&case, "Panic", false, "zone_selection"); out.check(false, "panic_sign", &case, &p); return; }
+        Ok(Err(e)) => { out.case(&case, "Err", false, "zone_selection"); out.check(false, "honest_sign_fails", &case, &e); return; }
         Ok(Ok(v)) => v,
     };
-    out.oracle_case(&case, !rrsigs.is_empty(), "zone");
-    out.check(!rrsigs.is_empty(), "zone_nothing_signed", &case, "");
+    let obs: Vec<String> = rrsigs.iter().map(|rr| format!("{}:{}", hex(&wire(&labels_of(rr.owner()))), rr.data().type_covered().to_int())).collect();
+    out.case(&case, &if obs.is_empty() { "-".to_string() } else { obs.join(" ") }, !obs.is_empty(), "zone_selection");
+    // ---- RFC 4035 2.2 from the zone content
+    let lapex = lower(&apex);
+    let below = |o: &Nm, c: &Nm| o.len() > c.len() && o[o.len() - c.len()..] == c[..];
+    let in_zone = |o: &Nm| *o == lapex || below(o, &lapex);
+    let mut owners: Vec<Nm> = specs.iter().map(|x| lower(&x.owner)).collect(); owners.sort(); owners.dedup();
+    let cuts: Vec<Nm> = owners.iter().filter(|o| **o != lapex && in_zone(o) && specs.iter().any(|x| lower(&x.owner) == **o && x.rtype == 2)).cloned().collect();
+    let mut want: Vec<(Nm, u16)> = vec![];
+    for o in &owners {
+        if !in_zone(o) || cuts.iter().any(|c| below(o, c)) { continue; }
+        let at_cut = cuts.contains(o);
+        let mut types: Vec<u16> = specs.iter().filter(|x| lower(&x.owner) == *o).map(|x| x.rtype).collect(); types.sort(); types.dedup();
+        for t in types {
+            let sign = if at_cut { t == 43 || t == 47 } else { t != 46 && !(*o == lapex && matches!(t, 48 | 59 | 60)) };
+            if sign { want.push((o.clone(), t)); }
+        }
+    }
+    let mut got: Vec<(Nm, u16)> = rrsigs.iter().map(|rr| (lower(&labels_of(rr.owner())), rr.data().type_covered().to_int())).collect();
+    for w in &want {
+        let n = got.iter().filter(|g| *g == w).count();
+        out.check(n == keys.len(), "zone_rrset_not_signed", &case, &format!("owner {} type {}: {} RRSIGs for {} keys", hex(&wire(&w.0)), w.1, n, keys.len()));
+    }
+    got.sort(); got.dedup();
+    for g in &got { out.check(want.contains(g), "zone_signs_non_authoritative", &case, &format!("owner {} type {}", hex(&wire(&g.0)), g.1)); }
+    // ---- every RRSIG verifies
     for rr in &rrsigs {
         cx.zone_rrsigs += 1;
         let sig: Sig = rr.data().clone();
         let f = sig_fields(&sig);
         let owner = labels_of(rr.owner());
+        let ki = if f.kt == cx.keys[k1].dnskey.key_tag() && f.alg == cx.keys[k1].alg.to_int() { k1 } else { k2 };
+        let dnskey = cx.keys[ki].dnskey.clone();
         let mut members: Vec<ZRec> = zone.iter().filter(|z| lower(&labels_of(z.owner())) == lower(&owner) && z.rtype().to_int() == f.tc).cloned().collect();
-        let c = format!("{} rrsig owner {} type {}", case, hex(&wire(&owner)), f.tc);
+        let c = format!("zone {} rrsig owner {} type {}", idx, hex(&wire(&owner)), f.tc);
         let sig2 = sig.clone();
         let sd = catch_mut(move || { let mut buf: Vec<u8> = vec![]; sig2.signed_data(&mut buf, &mut members[..]).unwrap(); buf });
         match sd {
@@ -810,6 +868,83 @@ fn known_answers(out: &mut Out) {
                 }
                 Err(p) => { out.case(&c, "Panic", false, "signed_data_known_answer"); out.check(false, "panic_signed_data", &c, &p); }
             }
+        }
+    }
+}
+
+/// the public key field of a DNSKEY comes off the wire: every octet string must
+/// give a result or an error from rsa_exponent_modulus, key_size and
+/// verify_signed_data - never a panic, and never an accepted signature
+fn run_key_parsing(out: &mut Out, r: &mut Rng) {
+    use domain::crypto::common::{rsa_encode, rsa_exponent_modulus, AlgorithmError};
+    let pk: Vec<u8> = match r.below(14) {
+        0 => vec![],
+        1 => vec![0],
+        2 => vec![0, r.u8()],
+        3 => vec![0, 0, r.u8(), 1, 2, 3],
+        4 => { let l = r.range(1, 255) as u8; let mut v = vec![l]; v.extend(rb(r, 0, l as u64)); v }          // exponent fills or overruns the key
+        5 => { let mut v = vec![0u8]; v.extend(u16b(r.range(256, 700) as u16)); v.extend(rb(r, 0, 800)); v }
+        6 => { let mut v = vec![r.range(1, 4) as u8]; let n = v[0] as u64; v.extend(rb(r, n, n)); v }            // no modulus octets
+        7 => { let el = r.range(1, 4); let mut v = vec![el as u8]; let mut e = rb(r, el, el); if r.chance(1, 3) { e[0] = 0; } v.extend(e);
+               let mut n = rb(r, 1, 40); if r.chance(1, 3) { n[0] = 0; } v.extend(n); v }
+        8 => { let mut v = vec![3u8, 1, 0, 1]; let nl = *r.pick(&[127u64, 128, 129, 255, 256, 257, 511, 512, 513, 600]); let mut n = rb(r, nl, nl); n[0] |= 1 << r.below(8); v.extend(n); v }
+        9 => { let el = *r.pick(&[255u64, 256, 257, 512, 513]); let e = { let mut e = rb(r, el, el); e[0] |= 1; e }; let n = { let mut n = rb(r, 128, 128); n[0] |= 0x80; n };
+               let mut v = if el < 256 { vec![el as u8] } else { let mut v = vec![0u8]; v.extend(u16b(el as u16)); v }; v.extend(e); v.extend(n); v }
+        _ => rb(r, 0, 70),
+    };
+    let min_len = *r.pick(&[0usize, 1, 128, 129, 256]);
+    let key = Dnskey::new(256, 3, SecurityAlgorithm::RSASHA256, pk.clone()).unwrap();
+    let c = format!("rsa {} {}", min_len, hex(&pk));
+    out.begin(&c);
+    let k2 = key.clone();
+    match catch_mut(move || rsa_exponent_modulus(&k2, min_len)) {
+        Err(p) => { out.case(&c, "Panic", false, "rsa_parse"); out.check(false, "panic_rsa_parse", &c, &p); }
+        Ok(res) => {
+            let obs = match &res { Ok((e, n)) => format!("Ok {} {}", hex(e), hex(n)), Err(AlgorithmError::Unsupported) => "Err unsupported".into(), Err(_) => "Err invalid".into() };
+            out.case(&c, &obs, res.is_ok(), "rsa_parse");
+            if let Ok((e, n)) = &res {
+                // RFC 3110 section 2 and the round trip through the encoder
+                let good = |x: &Vec<u8>| !x.is_empty() && x.len() <= 512 && x[0] != 0;
+                let back = Dnskey::new(256, 3, SecurityAlgorithm::RSASHA256, rsa_encode(e, n)).unwrap();
+                out.check(good(e) && good(n) && n.len() >= min_len && pk.ends_with(n) && rsa_exponent_modulus(&back, 0) == Ok((e.clone(), n.clone())),
+                    "rsa_roundtrip_wrong", &c, &obs);
+            }
+        }
+    }
+    if r.chance(1, 4) {
+        let (mut e, mut n) = (rb(r, 0, 6), rb(r, 0, 12));
+        if r.chance(1, 2) { e.insert(0, 0); e.insert(0, 0); } if r.chance(1, 2) { n.insert(0, 0); }
+        if r.chance(1, 10) { e = { let mut x = rb(r, 256, 300); x[0] |= 1; x }; }
+        let c = format!("renc {} {}", hex(&e), hex(&n));
+        let (e2, n2) = (e.clone(), n.clone());
+        match catch_mut(move || rsa_encode(&e2, &n2)) {
+            Ok(k) => out.case(&c, &format!("Ok {}", hex(&k)), true, "rsa_encode"),
+            Err(p) => { out.case(&c, "Panic", false, "rsa_encode"); out.check(false, "panic_rsa_encode", &c, &p); }
+        }
+    }
+    for alg in [*r.pick(&[5u8, 7, 8, 10]), *r.pick(&[13u8, 14, 15, 16, 1, 253, 3])] {
+        let key = Dnskey::new(256, 3, SecurityAlgorithm::from_int(alg), pk.clone()).unwrap();
+        let c = format!("ksz {} {}", alg, hex(&pk));
+        out.begin(&c);
+        let k2 = key.clone();
+        match catch_mut(move || k2.key_size()) {
+            Err(p) => { out.case(&c, "Panic", false, "key_size"); out.check(false, "panic_key_size", &c, &p); }
+            Ok(res) => {
+                let obs = match res { Ok(k) => format!("Ok {}", k), Err(AlgorithmError::Unsupported) => "Err unsupported".into(), Err(_) => "Err invalid".into() };
+                out.case(&c, &obs, res.is_ok(), "key_size");
+                // a key that parses has the size of its modulus
+                if let (true, Ok((_, n))) = (matches!(alg, 5 | 7 | 8 | 10), rsa_exponent_modulus(&key, 0)) {
+                    out.check(res == Ok(n.len() * 8 - n[0].leading_zeros() as usize), "key_size_wrong", &c, &obs);
+                }
+            }
+        }
+        // verification with such a key: an error, not a panic, never success
+        let f = SigF { tc: 1, alg, labels: 0, ottl: 0, exp: 0, inc: 0, kt: 0, signer: vec![] };
+        let sg = rb(r, 0, 130);
+        let sig = mk_sig(&f, &sg);
+        match lib_verify(&sig, &key, &rb(r, 0, 40)) {
+            Err(p) => out.check(false, "panic_verify", &c, &p),
+            Ok(ok) => out.check(!ok, "tamper_accepted_malformed_key", &c, "a random signature verified"),
         }
     }
 }
@@ -878,7 +1013,7 @@ fn main() {
     }
     if std::env::var("C12_TIMING").is_ok() { eprintln!("rrsets done"); }
     // ---- whole zones through SortedRecords / sign_sorted_zone_records
-    for _ in 0..(if a.thorough { 600 } else { 40 } * a.scale) {
+    for _ in 0..(if a.thorough { 1500 } else { 80 } * a.scale) {
         idx += 1;
         let mut rr = r.fork();
         if !out.wants(idx) { continue; }
@@ -944,6 +1079,13 @@ fn main() {
         let _ = oname;
     }
     if std::env::var("C12_TIMING").is_ok() { eprintln!("free cases done"); }
+    // ---- public key field parsing
+    for _ in 0..(if a.thorough { 20000 } else { 1200 } * a.scale) {
+        idx += 1;
+        let mut rr = r.fork();
+        if !out.wants(idx) { continue; }
+        run_key_parsing(&mut out, &mut rr);
+    }
     // ---- key tags and DS digests
     for i in 0..(if a.thorough { 20000 } else { 1500 } * a.scale) {
         idx += 1;
